@@ -1642,6 +1642,23 @@ impl Scenario for C20 {
             Plan::Call(_) => true,
         }
     }
+    fn label(plan: &Plan) -> String {
+        match plan {
+            Plan::Load { loader, .. } => format!("load:{}", loader),
+            Plan::Call(c) => match c {
+                CallSpec::DualNew { .. } => "Dual::try_new".into(),
+                CallSpec::Dual2New { .. } => "Dual2::try_new".into(),
+                CallSpec::DualNewFrom { .. } => "try_new_from".into(),
+                CallSpec::Ccy(_) => "Ccy::try_new".into(),
+                CallSpec::FxPair(..) => "FXPair::try_new".into(),
+                CallSpec::FxRate(..) => "FXRate::try_new".into(),
+                CallSpec::FxRatesNew { .. } => "FXRates::try_new".into(),
+                CallSpec::NamedCal(_) => "NamedCal::try_new".into(),
+                CallSpec::DateSweep { func, .. } => format!("DateRoll::{:?}", func),
+                CallSpec::Csolve { .. } => "PPSpline::csolve".into(),
+            },
+        }
+    }
     fn rule() -> String {
         "Fault enumeration on durable JSON: for each seeded document (one small and one medium object of each of 15 types in quick, ten of each in thorough; saved through its direct loader, through the tagged container, and for calendars inside CalType) EVERY truncation offset, EVERY member deletion and duplication at every depth, EVERY scalar x every alternative value, every array grow/shrink/reverse, every enum-tag swap, and the misdirected read by every other loader are executed; single-byte damage and torn splices of two versions are sampled. Each evaluation = one load of one faulty text, checked for: no unwind, and if accepted, the type's shape invariants and a non-unwinding query suite. In addition (generation only): constructor and date-arithmetic calls over the documented argument ranges under the same no-unwind monitor. Distinct = distinct plan digest; non-trivial = the text differs from a valid document, or the evaluation is a generated call.".into()
     }
